@@ -108,8 +108,24 @@ def anchor_fns(facts):
             out.add(k)
     try:
         from . import faults
-        pm = models.parser_model(facts)
-        rl = faults.roles(facts, pm)
+        try:
+            pm = models.parser_model(facts)
+            rl = faults.roles(facts, pm)
+        except AnchorError:
+            # the parser's body is not readable as written (moved wholesale into a private helper, say): the roles it
+            # hands out -- which local fn decodes the subpath, the namespace, the qualifiers -- are read off a provisional
+            # normal form in which only loop-free private helpers are inlined (the decoders loop or are the strict
+            # decoder, so they stay calls there), and are the same functions in the program as written
+            from purlsa import inline as _inline
+            prov = set(out)
+            prov.update(k for k, b in facts.j["bodies"].items() if b["kind"] == "fn" and _inline._has_loop(b))
+            prov.update(k for k in facts.bodies if models.decoder_role(facts, k))
+            f1, _rep = _inline.inlined_facts(facts, prov)
+            if not f1:
+                raise
+            pm = models.parser_model(f1)
+            # (the parser-independent roles -- entry, insert, key check, hooks -- are read off the program as written)
+            rl = {k: v for k, v in faults.roles(facts, pm).items() if v in facts.bodies}
         out.update(v for v in rl.values() if v)
         # the key predicate: the local predicate the key check refuses on
         if rl.get("keycheck"):
